@@ -46,6 +46,9 @@ fn run_model(check: &Check, prefix: &str, c: &ModelCase) -> CaseResult {
     let (class, nt) = model_class(c);
     check.count(&format!("{prefix}{class}"), nt);
     let r = check_model(c)?;
+    if c.spec.hdr_version.is_some() {
+        check.bump("models_with_intermediate_header_version", 1);
+    }
     if let Some(k) = r.rejected {
         check.bump(&format!("writer_rejected:{k}"), 1);
     } else {
@@ -162,6 +165,29 @@ fn grid(check: &Check) {
                     check.bump(&format!("grid:section:{sec}"), 1);
                     direct(check, jm(&c), || run_model(check, "grid:", &c));
                 }
+            }
+        }
+        // intermediate build numbers of the version: full model and every section alone
+        let inter: &[u32] = match ver {
+            Ver::Vanilla => &[257, 258, 259],
+            Ver::TBC => &[261, 262, 263],
+            Ver::WotLK => &[265, 268, 271],
+            _ => &[],
+        };
+        for &h in inter {
+            for idx in std::iter::once(None).chain((0..SECTIONS.len()).map(Some)) {
+                if idx.is_some_and(|i| SECTIONS[i] == "embedded_skins" && ver.num() > 263) {
+                    continue;
+                }
+                let mut spec = match idx {
+                    None => full_spec(ver, 2, true, false),
+                    Some(i) => only_section(full_spec(ver, 2, true, false), Some(i), true),
+                };
+                spec.hdr_version = Some(h);
+                let mut c = ModelCase { spec, target: ver, via_converter: false };
+                x.apply(&mut c);
+                check.bump("grid:intermediate-header-version", 1);
+                direct(check, jm(&c), || run_model(check, "grid:", &c));
             }
         }
         // all sections populated × all conversion targets × both conversion entry points
